@@ -246,6 +246,11 @@ type c23Run struct {
 
 	evMu []sync.Mutex
 	evs  [][]c23Ev // per thread
+
+	// invalidate() is only ever called from the single invalidateLoop goroutine of the handler (one call after the
+	// other); the shard keeps ONE cursor (invalidateIter) for that walker. The plan's invalidations, which live on
+	// several goroutines, are therefore serialized among themselves (they still race with everything else).
+	invMu sync.Mutex
 }
 
 func (r *c23Run) stamp() int64 { return r.seq.Add(1) }
@@ -479,9 +484,11 @@ func (r *c23Run) thread(th int, ops []c23Op) {
 			step := r.c.Steps[op.StepIx%len(r.c.Steps)]
 			ev.Step = step
 			ev.Times = r.absTimes(op.Times, time.Now().Unix())
+			r.invMu.Lock()
 			begin(ev)
 			r.cache.invalidate(ev.Times, step)
 			end(nil)
+			r.invMu.Unlock()
 		case "lim":
 			begin(ev)
 			r.limits(op)
